@@ -57,7 +57,7 @@ def gen_case(rng, tier):
                 if (mode < 0.15) or (mode < 0.7 and rng.random() < 0.35) or (i == 0 and mode > 0.85):
                     vals[i] = NA[kind]
         cols.append({"name": framegen.NAMES[j], "kind": kind, "vals": vals})
-    return {"op": "roundtrip", "route": rng.choice(ROUTES), "frame": {"n": n, "cols": cols}}
+    return {"op": "roundtrip", "route": rng.choice(ROUTES), "frame": framegen.odd_names(rng, {"n": n, "cols": cols})}
 
 
 def gen_cases(ctx):
